@@ -111,6 +111,28 @@ fn check_link(s: &mut Sink, name: &str, l: &Link, red: bool, with_model: bool) {
     }
 }
 
+/// Q-only clauses on knots whose complex over Q has pivots other than ±1 (7_7 and several 8-crossing knots): the engine's elimination
+/// order follows randomly seeded hash maps, so the Q tables are built several times; Z comes from the bigraded complex (route 2)
+fn check_q_repeated(s: &mut Sink, name: &str, l: &Link, reps: usize) {
+    let desc = format!("{} reduced=0 {}", name, link_txt(l));
+    let z2 = route2::<i64>(l, false, &|x| BigInt::from(*x));
+    let zero = (0usize, vec![]);
+    for rep in 0..reps {
+        let q1 = route1::<Ratio<i64>>(l, false, &no_tor);
+        let q2 = route2::<Ratio<i64>>(l, false, &no_tor);
+        for c in cells(&[&q1, &q2, &z2]) {
+            s.oracle(q1.get(&c) == q2.get(&c), "bigraded table from total homology = homology of the bigraded complex",
+                &format!("{} ring=Q cell ({},{}) build#{}", desc, c.0, c.1, rep), &format!("total-route {:?} vs bigraded-complex {:?}", q1.get(&c), q2.get(&c)));
+            let zc = z2.get(&c).unwrap_or(&zero);
+            for (rt, q) in [("total-route", &q1), ("bigraded-complex", &q2)] {
+                s.oracle(q.get(&c).map(|x| x.0).unwrap_or(0) == zc.0, "rank over Q = free rank over Z", &format!("{} cell ({},{}) {} build#{}", desc, c.0, c.1, rt, rep), &format!("Q {:?} Z {:?}", q.get(&c), zc));
+            }
+        }
+    }
+    s.eval_only(&format!("q-repeated {}", desc), true);
+    s.count("q-repeated");
+}
+
 /// (d) over F2: unreduced(i,j) = reduced(i,j-1) + reduced(i,j+1)
 fn check_f2_reduced(s: &mut Sink, name: &str, l: &Link) {
     if l.is_empty() { return }
@@ -175,6 +197,12 @@ fn main() {
             guarded_case(&mut s, name, |s| check_link(s, name, l, red, n <= (if thorough { 9 } else { 7 })));
         }
         guarded_case(&mut s, name, |s| check_f2_reduced(s, name, l));
+    }
+    // knots whose rational complex has non-±1 pivots, rebuilt several times (Q clauses only)
+    {
+        let mut qs = vec!["7_7", "8_11", "8_13", "8_14", "8_15", "8_17", "8_18", "8_21"];
+        if !thorough { r.shuffle(&mut qs); qs.truncate(5); }
+        for n in qs { if let Some(l) = load(n) { guarded_case(&mut s, n, |s| check_q_repeated(s, n, &l, if thorough { 4 } else { 3 })); } }
     }
     // torus knots: library-only (too many crossings for the cube reference)
     let mut tori = vec![(3, 4), (3, 5), (4, 5)];
